@@ -25,7 +25,7 @@ def describe(tier):
     d2 = "2" if tier == "quick" else "3 (full alphabet to depth 2, reduced alphabet to depth 3 in quick)"
     return {
         "rule": "layer T: every truncation of every frame instance, incl. frames whose range-count / length fields hold the "
-                "maximum of each varint width; layer A: all sequences of well-formed frames (LEN-less STREAM/DATAGRAM only last) over the instance "
+                "maximum of each varint width; layer A (alphabet incl. per-field mixed varint widths, ACK frames with 64..1000 ranges, 1/8/20-byte connection IDs, reason phrases that are not UTF-8): all sequences of well-formed frames (LEN-less STREAM/DATAGRAM only last) over the instance "
                 "alphabet, full alphabet to depth 2 and a reduced one-width alphabet to depth 3 (thorough: full "
                 "alphabet to depth 2, medium alphabet to depth 3); layer B: all byte strings of "
                 "length <= 4 over 40 symbols" + ("" if tier == "quick" else ", of length 5 over the same 40 symbols and of length <= 3 over all 256 byte values") +
